@@ -55,6 +55,19 @@ def raw_status_shapes():
         for data in ({"uid": [4, 161, 178, 195]}, {"uid": [4, 161, 178, 195], "subs": [{"aid": [160, 0, 0, 0, 4, 16, 16]}]}):
             out.append({"calls": [{"op": "read_card"}], "config": {"read_card_timeout": 15},
                         "plan": {"exchanges": [dict({"o": "status", "inter": n, "delays": [gap] * (n + 1)}, **data)], "default": {"o": "ok", "uid": [1, 2, 3, 4]}}})
+    # what the terminal displayed on the way (every intermediate status byte there is) and how often (up to 64 times) does not change
+    # what the card is, nor what a time-out is
+    card = {"uid": [4, 161, 178, 195]}
+    bank = {"uid": [4, 161, 178, 195], "subs": [{"aid": [160, 0, 0, 0, 4, 16, 16]}]}
+    for st in range(256):
+        fin = [dict({"o": "status"}, **card), {"o": "abort", "code": 108}, dict({"o": "status"}, **bank), {"o": "abort", "code": 100}][st % 4]
+        out.append({"calls": [{"op": "read_card"}], "plan": {"exchanges": [dict(fin, inter=1 + st % 2, inter_status=st)], "default": {"o": "ok", "uid": [1, 2, 3, 4]}}})
+        if st in (0x08, 0x0a, 0x0c, 0x10, 0x19, 0x17, 0x01, 0x02, 0xff):
+            for f2 in (dict({"o": "status"}, **card), {"o": "abort", "code": 108}, dict({"o": "status"}, **bank)):
+                out.append({"calls": [{"op": "read_card"}], "plan": {"exchanges": [dict(f2, inter=2, inter_status=st)], "default": {"o": "ok", "uid": [1, 2, 3, 4]}}})
+    for n in (19, 20, 21, 25, 29, 64):
+        for fin in (dict({"o": "status"}, **card), {"o": "abort", "code": 108}, dict({"o": "status"}, **bank)):
+            out.append({"calls": [{"op": "read_card"}], "plan": {"exchanges": [dict(fin, inter=n)], "default": {"o": "ok", "uid": [1, 2, 3, 4]}}})
     return out
 
 
